@@ -938,8 +938,13 @@ def handleEnd (ds : DS) (j : Json) : IO DS := do
           let (passB, vetoB, decisiveB) := GovD.specStakeRule viewBefore votes tp
           let decisive := decisive0 && (!paidHere || (decisiveB && passB == pass && vetoB == veto))
           if paidHere && !decisive then ds := stat ds "sit.c12.tally_state_unobservable_in_payout_block"
-          -- a payout that cannot be made fails the proposal although the vote passed
-          let pass := pass && !(p.kind == "claim" && q.status == 6 && false)
+          -- a payout that cannot be made fails the proposal although the vote passed: counted, by where it happened
+          -- (inside the module's stated design assumption on the periods or not; see DESIGN §11.4)
+          if p.kind == "claim" && q.status == 6 then
+            let inDom := ds.hasShield && ds.hasStk &&
+              pre.sh.params.withdrawPeriod ≥ pre.sh.params.protection && ds.stk.unbondingNs ≥ pre.sh.params.withdrawPeriod &&
+              pre.sh.params.protection ≥ 2 * pre.g.params.votingPeriod
+            ds := stat ds (if inDom then "sit.c04.passed_claim_failed_at_payout.periods_in_domain" else "sit.c04.passed_claim_failed_at_payout.periods_outside_domain")
           if decisive && !(p.kind == "claim" && claimDenominator == 0) then
             let passed := q.status == 4 || q.status == 6
             if pass != passed then
